@@ -1,7 +1,10 @@
 (** Judge for C13: format conversions and reader entry points agree.
-    case: ((trees (T ...)) (translate T|F) (seps ("sep" ...)) (breaks T|F) (nsjson "..."))
+    case: ((trees (T ...)) (translate T|F) (seps ("sep" ...)) (breaks T|F) (breakat (i ...)) (nsjson "..."))
+          [breakat]: indices of the commas (counted over the whole file) followed by a line break
     obs : ((texts (...)) (src s) (multi (REC ...)) (nexus s) (nexus_err e) (nexus_recs (REC ...))
            (px s) (px_err e) (px_recs (REC ...)) (tnexus s) (tnexus_recs (REC ...))
+           (px_b ..) (nexus_b ..) (nexus_z ..) each with _err and _recs: the writers fed with the trees as BUILT
+           (parent slot anywhere, not re-parsed), ids 0,1,.. (px_b, nexus_b) or never set (nexus_z: all "tree0")
            (first (((fmt f) (first REC) (head REC|())) ...)))
     REC : ((id n) (err msg)) | ((id n) (err "") (nwk text) (tree T) (audit (...)))
 
@@ -16,6 +19,9 @@
       - Newick -> Nexus (with/without translate) -> Newick, Newick -> PhyloXML -> Newick and
         Tree.Nexus() -> Newick deliver, for every input tree, in order and with ids 0,1,...,
         a tree with the same rooted shape, child order, names, lengths and supports;
+      - the same chains starting from the trees as built through the API (not re-parsed), and
+        WriteNexus fed with records whose Id was never set (every TREE statement is named
+        tree0): every TREE statement comes back, in order;
       - the multi-tree reader on the Newick file delivers tree i as record i with id i, until
         the end of the file or an error record: no tree is skipped or altered silently;
       - for each format the single-tree accessor returns the first record of the iterator
@@ -144,9 +150,30 @@ Fixpoint break_commas (s : string) : string :=
   | String c r => if Ascii.eqb c "," then String c (String "010" (break_commas r)) else String c (break_commas r)
   end.
 
-Fixpoint build_src (breaks : bool) (texts seps : list string) : string :=
+(** a line break after the commas whose index (counted over the whole file) is in [bs]
+    (increasing) *)
+Fixpoint break_at (s : string) (i : nat) (bs : list nat) : string * nat * list nat :=
+  match s with
+  | EmptyString => (EmptyString, i, bs)
+  | String c r =>
+    if Ascii.eqb c "," then
+      match bs with
+      | b :: bt =>
+        if Nat.eqb b i then let '(x, i', bs') := break_at r (S i) bt in (String c (String "010" x), i', bs')
+        else let '(x, i', bs') := break_at r (S i) bs in (String c x, i', bs')
+      | [] => let '(x, i', bs') := break_at r (S i) bs in (String c x, i', bs')
+      end
+    else let '(x, i', bs') := break_at r i bs in (String c x, i', bs')
+  end.
+
+Fixpoint build_src (breaks : bool) (i : nat) (bs : list nat) (texts seps : list string) : string :=
   match texts, seps with
-  | x :: xr, s :: sr => (if breaks then break_commas x else x) ++ s ++ build_src breaks xr sr
+  | x :: xr, s :: sr =>
+    if breaks then break_commas x ++ s ++ build_src breaks i bs xr sr
+    else match bs with
+         | [] => x ++ s ++ build_src breaks i bs xr sr
+         | _ => let '(y, i', bs') := break_at x i bs in y ++ s ++ build_src breaks i' bs' xr sr
+         end
   | _, _ => ""
   end.
 
@@ -165,7 +192,35 @@ Definition nexus_model_recs (text : string) : option (string * list (nat * optio
   | _ => None
   end.
 
-Definition corr (ts : list utree) (translate breaks : bool) (seps : list string) (o : sexp) : option string :=
+Definition recs_of (k : string) (o : sexp) : option (list oitem) := x <- get k o ;; dec_list dec_item x.
+
+Definition nexus_chain_corr (what key : string) (ids : list nat) (ts : list utree) (translate : bool) (o : sexp) : option string :=
+  match get_string key o, recs_of (key ++ "_recs") o with
+  | Some text, Some recs =>
+    if negb (String.eqb (str_or (key ++ "_err") o) "") then Some (what ++ ": WriteNexus fails, the model does not")
+    else if negb (String.eqb (write_nexus writeC translate (combine ids ts)) text)
+    then Some (what ++ ": WriteNexus, model: " ++ write_nexus writeC translate (combine ids ts))
+    else match nexus_model_recs text with
+         | Some (_, ms) => cmp_records (what ++ ": Nexus reader") ms recs
+         | None => Some (what ++ ": model predicts a panic or hang")
+         end
+  | _, _ => Some "undecodable observation"
+  end.
+
+Definition built_corr (ts : list utree) (translate : bool) (o : sexp) : option string :=
+  first_some
+    [ nexus_chain_corr "built trees" "nexus_b" (seq 0 (length ts)) ts translate o;
+      nexus_chain_corr "built trees, ids unset" "nexus_z" (map (fun _ => 0) ts) ts translate o;
+      match recs_of "px_b_recs" o with
+      | Some recs =>
+        cmp_records "built trees: PhyloXML reader"
+                    (combine (combine (seq 0 (length ts)) (map (fun _ => None) ts))
+                             (map (fun t => clade_to_tree (write_clade None t)) ts))
+                    recs
+      | None => Some "undecodable observation"
+      end ].
+
+Definition corr (ts : list utree) (translate breaks : bool) (breakat : list nat) (seps : list string) (o : sexp) : option string :=
   match get_strings "texts" o, get_string "src" o, get_string "nexus" o, get_string "tnexus" o,
         (x <- get "multi" o ;; dec_list dec_item x),
         (x <- get "nexus_recs" o ;; dec_list dec_item x),
@@ -173,7 +228,7 @@ Definition corr (ts : list utree) (translate breaks : bool) (seps : list string)
         (x <- get "tnexus_recs" o ;; dec_list dec_item x) with
   | Some texts, Some src, Some nex, Some tnex, Some multi, Some nrecs, Some precs, Some trecs =>
     if negb (list_eqb String.eqb (map writeC ts) texts) then Some "Newick writer: model and implementation differ"
-    else if negb (String.eqb (build_src breaks texts seps) src) then Some "harness: src is not the requested layout"
+    else if negb (String.eqb (build_src breaks 0 breakat texts seps) src) then Some "harness: src is not the requested layout"
     else
       first_some
         [ (* multi-tree Newick reader on the layout *)
@@ -199,6 +254,8 @@ Definition corr (ts : list utree) (translate breaks : bool) (seps : list string)
                                       (map (fun t => clade_to_tree (write_clade None t)) ts'))
                              precs ]
            end);
+          (* the writers fed with the trees as built: ids 0.., and ids never set *)
+          built_corr ts translate o;
           (match ts with
            | t0 :: _ =>
              if negb (String.eqb (tree_nexus writeC t0) tnex) then Some ("Tree.Nexus, model: " ++ tree_nexus writeC t0)
@@ -222,6 +279,15 @@ Definition oracle (ts : list utree) (o : sexp) : option string :=
       ([ chain_oracle "Newick -> Nexus -> Newick" (str_or "nexus_err" o) ts nrecs;
          chain_oracle "Newick -> PhyloXML -> Newick" (str_or "px_err" o) ts precs;
          chain_oracle "Tree.Nexus() -> Newick" "" (firstn 1 ts) trecs;
+         (match recs_of "px_b_recs" o with
+          | Some r => chain_oracle "tree built through the API -> PhyloXML -> Newick" (str_or "px_b_err" o) ts r
+          | None => Some "undecodable observation" end);
+         (match recs_of "nexus_b_recs" o with
+          | Some r => chain_oracle "tree built through the API -> Nexus -> Newick" (str_or "nexus_b_err" o) ts r
+          | None => Some "undecodable observation" end);
+         (match recs_of "nexus_z_recs" o with
+          | Some r => chain_oracle "trees written under one name (ids never set) -> Nexus: every TREE statement in order" (str_or "nexus_z_err" o) ts r
+          | None => Some "undecodable observation" end);
          multi_go 0 ts multi ] ++
        map (fun x => match x with (f, a, h) => first_oracle f a h end) firsts)
   | _, _, _, _, _ => Some "undecodable observation"
@@ -234,11 +300,12 @@ Definition judge (c o : sexp) : verdict :=
   | None, None =>
     match (x <- get "trees" c ;; dec_list dec_utree x), get_bool "translate" c, get_bool "breaks" c, get_strings "seps" c with
     | Some ts, Some translate, Some breaks, Some seps =>
+      let breakat := match get_nats "breakat" c with Some l => l | None => [] end in
       let dom := forallb in_domain ts in
       match (if dom then oracle ts o else None) with
       | Some m => VOracle m
       | None =>
-        match corr ts translate breaks seps o with
+        match corr ts translate breaks breakat seps o with
         | Some m => if String.eqb m "undecodable observation" then VBad m else VCorr m
         | None => VOk dom (if dom then (if translate then "translate" else "plain") else "outside-domain")
         end
